@@ -35,11 +35,15 @@ RULE = ("arrays built from seeded recipes (uniform / clustered / constant / "
         "number of valid points, around N, beyond N and random; both "
         "remove_invalid modes; datasets (RTDC_Dict) with box, polygon, manual "
         "and invalid filters, 'limit events', linear and log scale, features "
-        "stored as float64/float32/uint8/int16, upper-case axis names, "
+        "stored as float64/float32/uint8/int8/int16 (integer features span "
+        "the whole dtype), RTDC_Dict or HDF5-backed, deform stored or "
+        "ancillary (from circ), negative limits, one dataset of 1500 (quick) / "
+        "10000 (thorough) events, upper-case axis names, "
         "xax == yax, empty datasets, hierarchy children, filter histories "
         "(limit / manual / box edits between apply_filter calls), requests "
         "and limits >= 2**32 as int and np.int64; array functions are also "
-        "called with default keywords, positionally and with ret_idx=False. "
+        "called with default keywords, positionally, with ret_idx=False, on "
+        "int8/int16 arrays and on a * 2**k, b * 2**m. "
         "A case is non-trivial when a grid/random selection step actually ran "
         "(at least one np.random.choice draw) or invalid points were padded or "
         "removed; distinct = different recipe/request/mode")
@@ -67,8 +71,9 @@ TRUSTED_BASE = [
     "box/polygon/invalid/manual filter arrays are inputs (C03/C15)",
 ]
 ASSUMPTIONS = [
-    "a and b have the same length, float64, C-contiguous (float32 inputs: "
-    "oracle only, corpus 15)",
+    "a and b have the same length, C-contiguous, float64 or signed integer "
+    "(int8/int16, modelled with the wrapping norm(): downsample_grid_int); "
+    "float32 inputs: oracle only, corpus 15",
     "arrays and datasets have fewer than 2**32 events",
     "np.uint32(samples) is modelled (to_uint32): Python ints outside "
     "0..2**32-1 raise, numpy integers wrap; float requests are not generated",
@@ -78,7 +83,8 @@ ASSUMPTIONS = [
     "(C16-grid-pad-overrequest, array level only since fix C16-cap-request), "
     "no constant axis when the grid step runs on >= 4 valid points "
     "(C16-grid-constant-axis), request < 2**32 at the array level "
-    "(C16-request-uint32)",
+    "(C16-request-uint32), value range of signed integer arrays fits the "
+    "dtype (C16-grid-integer-wrap)",
 ]
 
 F_PAD = "C16-grid-pad-overrequest"
@@ -167,20 +173,20 @@ def perturb(rng):
     np.random.rand(rng.randint(0, 5))
 
 
-_CLEAR = [0]
+class _NoGC:
+    """stands in for the gc module inside dclab.cached: Cache.clear_cache()
+    ends with gc.collect() (30 ms, thousands of calls per run)"""
+    @staticmethod
+    def collect(*a, **kw):
+        return 0
 
 
 def clear_cache():
-    """Empty dclab's result cache. Every 8th time through the public
-    Cache.clear_cache() (its gc.collect() costs 30 ms), otherwise by
-    resetting the two class attributes it resets."""
-    from dclab.cached import Cache
-    _CLEAR[0] += 1
-    if _CLEAR[0] % 8 == 0:
-        Cache.clear_cache()
-    else:
-        Cache._keys = []
-        Cache._cache = {}
+    """Empty dclab's result cache through the public Cache.clear_cache()"""
+    import dclab.cached as dc
+    if not isinstance(getattr(dc, "gc", None), _NoGC):
+        dc.gc = _NoGC()
+    dc.Cache.clear_cache()
 
 
 # --------------------------------------------------------------------------
@@ -1386,10 +1392,10 @@ def gen_cases(rng, thorough, ngrid, nrand, nds):
         for n in (20000, 50000, 100000):
             cases.append(big_case(rng, n))
         cases.append(big_case(rng, 100000, "rand"))
-        cases.append(gen_ds_case(rng, True, n=20000))
+        cases.append(gen_ds_case(rng, True, n=10000))
     else:
         cases.append(big_case(rng, 4000))
-        cases.append(gen_ds_case(rng, False, n=2500))
+        cases.append(gen_ds_case(rng, False, n=1500))
     return cases
 
 
@@ -1429,13 +1435,28 @@ def balanced_coq_map(run, rendered, nbuckets):
 
     def work(k):
         b = buckets[k]
-        res = common.coq_map(run.scratch, "c16_%d" % k, HEADER, "run_flat",
-                             [rendered[i] for i in b], shard=len(b) + 1,
-                             timeout=3000)
+        for attempt in (1, 2):
+            try:
+                res = common.coq_map(run.scratch, "c16_%d" % k, HEADER,
+                                     "run_flat", [rendered[i] for i in b],
+                                     shard=len(b) + 1, timeout=3000)
+                break
+            except common.ModelError as e:
+                # an empty message = coqc was killed (memory pressure on a
+                # shared machine): one more try
+                if attempt == 2 or "Error" in str(e):
+                    raise
         for i, r in zip(b, res):
             out[i] = r
+    # buckets with very large literals need several GB each inside coqc:
+    # run those few at a time, the others on all cores
+    heavy = [k for k, b in enumerate(buckets)
+             if max(len(rendered[i]) for i in b) > 400000]
+    light = [k for k in range(len(buckets)) if k not in heavy]
+    with concurrent.futures.ThreadPoolExecutor(max_workers=4) as ex:
+        list(ex.map(work, heavy))
     with concurrent.futures.ThreadPoolExecutor(max_workers=common.NCPU) as ex:
-        list(ex.map(work, range(len(buckets))))
+        list(ex.map(work, light))
     return out
 
 
